@@ -402,6 +402,7 @@ def check(ctx, rid):
             errs = [bb_ for bb_, val, _ in M.return_table(prog, f_) if val.startswith("Result::Err{")]
             ob("%s:from-words-rejects-exactly-len>limit" % ty.split("::")[-1], len(errs) == 1 and ("Lt", lim, LEN) in v_.guards(errs[0]), f_, "Err under %s" % [v_.guards(b_) for b_ in errs])
 
+    parent_memory_rules(ctx, rid)
     # ---- wiring in step_op_memory -----------------------------------------------
     som = prog.fn("essential_vm::sync::step_op_memory")
     if ctx.anchor(rid, "fn step_op_memory", som):
@@ -477,3 +478,48 @@ def from_words_tables(ctx, rid):
         errs = [bb_ for bb_, val, _ in rows if val.startswith("Result::Err{")]
         good = len(rows) == 2 and len(oks) == 1 and len(errs) == 1 and ("Le", "Vec::len($1)", lim) in v_.guards(oks[0]) and ("Lt", lim, "Vec::len($1)") in v_.guards(errs[0])
         ctx.ob(rid, "%s-from-words:accepted-iff-len<=%s" % (ty.split("::")[-1], lim), good, f_.loc(0), "Ok under %s; Err under %s" % ([v_.guards(b_) for b_ in oks], [v_.guards(b_) for b_ in errs]), f_)
+
+
+def parent_memory_rules(ctx, rid):
+    """ParentMemory::Load / LoadRange: the same checked Memory::load / load_range as the own-memory ops, on the innermost
+    parent memory, with the popped operands in spec order; the words read are what is pushed."""
+    prog = ctx.prog
+    f = prog.fn("essential_vm::sync::step_op_parent_memory")
+    if not ctx.anchor(rid, "fn step_op_parent_memory", f):
+        return
+    ctx.saw(f)
+    v = View(prog, f)
+    PM = "(slice::last($3) as Some).0"
+    bb, t = v.one(r"memory::Memory::load_range$")
+    got = [norm(v.arg(t, i)) for i in range(len(t["args"]))] if t else []
+    ctx.ob(rid, "ParentLoadRange:wiring", got == [PM, "pop2($2)?[0]", "pop2($2)?[1]"], f.loc(bb) if bb is not None else f.loc(0),
+           "%s; spec stack_in [index, len]: load_range(innermost parent memory, index, len) -- the checked range read that fails for a negative or out-of-range request" % got, f)
+    eb, et = v.one(r"stack::Stack::extend$")
+    ctx.ob(rid, "ParentLoadRange:pushes-the-words", et is not None and v.rooted_at(v.term(et, 1), r"memory::Memory::load_range$") is not None and len(v.calls(r"stack::Stack::(push|extend)$")) == 1, f.loc(eb) if eb is not None else f.loc(0),
+           "extend(stack, load_range(..)?) is the only push", f)
+    nb = [bb_ for bb_, val, at in M.return_table(prog, f) if "ParentMemoryError::NoParent" in val]
+    ctx.ob(rid, "ParentMemory:no-parent-is-an-error", len(nb) == 1, f.loc(0), "NoParent returned on %d path(s)" % len(nb), f)
+    for clo in prog.closures_of(f):
+        cv = View(prog, clo, closure_env(prog, f, clo))
+        for bb2, t2 in cv.calls(r"memory::Memory::load$"):
+            ctx.saw(clo)
+            got = [norm(cv.arg(t2, i)) for i in range(len(t2["args"]))]
+            ctx.ob(rid, "ParentLoad:wiring", got == [PM.replace("$3", "^3"), "$2"], clo.loc(bb2), "%s; load(innermost parent memory, popped address) inside pop1_push1" % got, clo)
+            oks = [a_ for a_ in _alts(cv.pv.of_local(0)) if a_.kind == "aggr" and str(a_.a).endswith("Result::Ok")]
+            ctx.ob(rid, "ParentLoad:pushes-the-word", len(oks) == 1 and cv.rooted_at(oks[0].sub[0], r"memory::Memory::load$") is not None, clo.loc(0), "closure returns Ok(load(..)?)", clo)
+
+
+def alloc_rules(ctx, rid):
+    """Memory::alloc succeeds exactly while the resulting length stays within the limit (the join of compute children relies on it)."""
+    prog = ctx.prog
+    f = prog.fn("essential_vm::memory::Memory::alloc")
+    if not ctx.anchor(rid, "fn Memory::alloc", f):
+        return
+    ctx.saw(f)
+    v = View(prog, f)
+    rows = M.return_table(prog, f)
+    oks = [bb_ for bb_, val, _ in rows if val.startswith("Result::Ok{")]
+    errs = [bb_ for bb_, val, _ in rows if val.startswith("Result::Err{")]
+    LEN = "Vec::len($1)"
+    ok = len(oks) == 1 and ("Le", "$2 + %s" % LEN, "10240") in v.guards(oks[0]) and len(errs) == 1 and ("Lt", "10240", "$2 + %s" % LEN) in v.guards(errs[0]) and len(rows) == 4
+    ctx.ob(rid, "alloc:succeeds-iff-len+size<=10240", ok, f.loc(0), "Ok under %s; Err under %s" % ([v.guards(b_) for b_ in oks], [v.guards(b_) for b_ in errs]), f)
